@@ -485,8 +485,16 @@ def op_redundant_relation(lex, v, p, q, ver):
         rels.append(_rel(y['id'], 'also'))
     r = rels[q % len(rels)]
     r2 = copy.deepcopy(r)
-    k = v % 4
-    if k == 1:          # both with the same dc:type, other metadata different
+    k = v % 5
+    if k == 4:          # two redundant groups on one (source, type, target): one without
+        #                  dc:type, one with it - each relation twice
+        r['meta'] = None
+        r2['meta'] = None
+        for _ in range(2):
+            r3 = copy.deepcopy(r)
+            r3['meta'] = {'type': 'T'}
+            rels.append(r3)
+    elif k == 1:        # both with the same dc:type, other metadata different
         r['meta'] = {'type': 'T', 'note': 'first'}
         r2['meta'] = {'type': 'T'}
     elif k == 2:        # different dc:type
